@@ -8,7 +8,7 @@ from typing_extensions import override
 from .decodestate import DecodeState
 from .diagcodedtype import DctType, DiagCodedType
 from .encodestate import EncodeState
-from .exceptions import odxassert, odxraise, odxrequire
+from .exceptions import DecodeError, odxassert, odxraise, odxrequire
 from .odxlink import OdxDocFragment
 from .odxtypes import AtomicOdxType, BytesTypes, DataType, odxstr_to_bool
 from .utils import dataclass_fields_asdict
@@ -161,6 +161,12 @@ class StandardLengthType(DiagCodedType):
                 mask_bit += 1
 
             if isinstance(raw_value, BytesTypes):
+                if result.bit_length() > 8 * len(raw_value):
+                    # the bit mask exhibits bits beyond the size of
+                    # the object
+                    raise DecodeError(f"The bits selected by the condensed bit mask "
+                                      f"0x{self.bit_mask:x} do not fit into a byte field "
+                                      f"of {len(raw_value)} bytes")
                 return result.to_bytes(len(raw_value), 'big')
 
             return result
